@@ -8,6 +8,7 @@ import (
 	"errors"
 	"fmt"
 	"runtime"
+	"strings"
 	"sync"
 	"time"
 
@@ -89,6 +90,7 @@ type Node struct {
 	// per middleware instance (reset by Restart): what the counters should say
 	CPStored, Delivered, MismatchWritten, MismatchRead uint64
 	CounterFail                                        string
+	AccountingFail                                     string
 	Retried                                            int
 }
 
@@ -181,9 +183,12 @@ func (n *Node) Close() {
 func (n *Node) counter(name string) uint64 { return n.Coll.Summary().Counters[name] }
 
 // Quiesce waits until every written checkpoint has been delivered or dropped.
-// There is no timeout: a verifier that never settles shows up as the test
-// binary's deadline (inconclusive), never as a verdict.
+// There is no timeout: a verifier that is still working is waited for. If the
+// counts do not add up while the verifier goroutine is idle (parked on its
+// channel in two consecutive stack dumps) the accounting itself is broken;
+// that is remembered in AccountingFail and the wait ends.
 func (n *Node) Quiesce() {
+	prevIdle := false
 	for i := 0; ; i++ {
 		s := n.Coll.Summary().Counters
 		if s["ranges_verified"]+s["dropped_reports"] >= s["checkpoints_written"] {
@@ -191,10 +196,45 @@ func (n *Node) Quiesce() {
 		}
 		if i < 100 {
 			runtime.Gosched()
+			continue
+		}
+		time.Sleep(20 * time.Microsecond)
+		if i%2000 != 0 {
+			continue
+		}
+		// is the verifier goroutine idle?
+		idle := VerifiersIdle()
+		s = n.Coll.Summary().Counters
+		if idle && s["ranges_verified"]+s["dropped_reports"] < s["checkpoints_written"] {
+			if prevIdle {
+				n.AccountingFail = fmt.Sprintf("node %d: the verifier is idle but checkpoints_written=%d while ranges_verified=%d + dropped_reports=%d: a checkpoint produced neither a delivered report nor a counted drop", n.ID, s["checkpoints_written"], s["ranges_verified"], s["dropped_reports"])
+				return
+			}
+			prevIdle = true
 		} else {
-			time.Sleep(20 * time.Microsecond)
+			prevIdle = false
 		}
 	}
+}
+
+// VerifiersIdle reports whether every verifier goroutine of the process is
+// parked on its hand-off channel (the harness is sequential: only the store
+// just written to could be busy), i.e. no report is being produced.
+func VerifiersIdle() bool {
+	buf := make([]byte, 2<<20)
+	dump := string(buf[:runtime.Stack(buf, true)])
+	seen := false
+	for _, g := range strings.Split(dump, "\n\n") {
+		if !strings.Contains(g, "verifier.(*LogStore).runVerifier") {
+			continue
+		}
+		seen = true
+		lines := strings.SplitN(g, "\n", 3)
+		if len(lines) < 2 || !strings.Contains(lines[0], "[chan receive") || !strings.Contains(lines[1], "runVerifier") {
+			return false
+		}
+	}
+	return seen
 }
 
 // TakeReports returns and clears delivered reports.
